@@ -20,6 +20,16 @@
                     false <->  only locals that no statement mentions      (unchanged tree)
      sw_loop_skip = true  <->  no last-use deinit is emitted inside a ForLoop body
                     false <->  emitted wherever the last mentioning statement is (unchanged tree)
+     sw_stmt_cond = true  <->  lower_inst wraps a statement that carries its own condition (the
+                               statements expand_IfThenElse makes from `a if c else b`) in
+                               `if (condition)`: its memory operations, the last-use release
+                               included, sit inside that `if`
+                    false <->  lower_inst ignores statement.condition (trees before 9d87c11)
+
+   Guard flags: a flag is assigned from a comparison of <t>, <dt> and the counters of the loops
+   around the assignment, so its value at a point of one call of `run` is a function of the trip
+   indices of the loops around that point: a valuation is  list nat -> nat -> bool  (trip
+   indices, innermost loop first -> flag -> value).
 *)
 From Coq Require Import List Arith Bool.
 Import ListNotations.
@@ -59,6 +69,8 @@ Inductive skind :=
 
 Record stmt := mkStmt {
   sid : nat;               (* statement id *)
+  scond : option gcond;    (* statement.condition: None <-> `condition is True`; Some c for the
+                              statements that expand_IfThenElse makes from `a if c else b` *)
   kind : skind;
   reads : list var;        (* user-type variables whose storage the statement reads *)
   mentions : list var;     (* get_read_variables() | get_written_variables(), user-type ones,
@@ -137,7 +149,7 @@ Record module := mkModule {
   m_funcs : list func }.
 
 Section Emit.
-  Variable sw_exit_all sw_loop_skip : bool.
+  Variable sw_exit_all sw_loop_skip sw_stmt_cond : bool.
   Variable globs : list var.            (* is_state_variable *)
   Variable tbl : var -> option nat.     (* last_used_stmt_table of the current function *)
 
@@ -159,12 +171,22 @@ Section Emit.
     | KExit XRaise => [OStop]
     end.
 
-  Definition emit_stmt (inloop : bool) (s : stmt) : list op :=
-    OMark true :: stmt_core s ++ lastuse_deinits inloop s ++ [OMark false].
+  (* what emit_inst_<T> emits: the statement proper, then emit_deinit_for_last_usage_of_vars *)
+  Definition stmt_ops (inloop : bool) (s : stmt) : list op :=
+    stmt_core s ++ lastuse_deinits inloop s.
+
+  (* lower_inst: "! {{{", [if (condition) then] emit_inst_<T> [end if], "! }}}" *)
+  Definition emit_stmt (inloop : bool) (s : stmt) : code :=
+    CBlock [COp (OMark true);
+            match (if sw_stmt_cond then scond s else None) with
+            | None => CBlock (map COp (stmt_ops inloop s))
+            | Some c => CIf c (CBlock (map COp (stmt_ops inloop s))) (CBlock [])
+            end;
+            COp (OMark false)].
 
   Fixpoint emit_node (inloop : bool) (n : node) : code :=
     match n with
-    | NStmt s => CBlock (map COp (emit_stmt inloop s))
+    | NStmt s => emit_stmt inloop s
     | NBlock l => CBlock (map (emit_node inloop) l)
     | NIfT c t => CIf c (emit_node inloop t) (CBlock [])
     | NIfTE c t e => CIf c (emit_node inloop t) (emit_node inloop e)
@@ -173,16 +195,17 @@ Section Emit.
 End Emit.
 
 (* lower_function *)
-Definition emit_phase (sw_exit_all sw_loop_skip : bool) (globs : list var) (ph : phase) : func :=
+Definition emit_phase (sw_exit_all sw_loop_skip sw_stmt_cond : bool) (globs : list var) (ph : phase)
+  : func :=
   let tbl := last_tbl (stmts_of (ph_body ph)) in
   mkFunc (ph_id ph) (ph_next ph) (ph_locals ph)
-         (emit_node sw_loop_skip globs tbl false (ph_body ph))
+         (emit_node sw_loop_skip sw_stmt_cond globs tbl false (ph_body ph))
          (if sw_exit_all then ph_locals ph
           else filter (fun x => match tbl x with None => true | Some _ => false end) (ph_locals ph)).
 
-Definition emit_mem (sw_exit_all sw_loop_skip : bool) (p : prog) : module :=
+Definition emit_mem (sw_exit_all sw_loop_skip sw_stmt_cond : bool) (p : prog) : module :=
   mkModule (globals p) (initable p) (first_phase p)
-           (map (emit_phase sw_exit_all sw_loop_skip (globals p)) (phases p)).
+           (map (emit_phase sw_exit_all sw_loop_skip sw_stmt_cond (globals p)) (phases p)).
 
 (* ------------------------------------------------------------------ the machine *)
 (* dynamic memory-operation trace, one event per executed Fortran line that the
@@ -316,31 +339,35 @@ Definition run_op (o : op) (st : mstate) : outcome :=
   | OMark b => ONormal (ev st [TMark b])
   end.
 
-Section Run.
-  Variable v : nat -> bool.     (* guard valuation of this call of `run` *)
+(* guard valuation of one call of `run`: trip indices (0, 1, ...) of the loops around the current
+   point, innermost first -> flag -> value *)
+Definition valn := list nat -> nat -> bool.
 
-  Fixpoint run_code (c : code) (st : mstate) {struct c} : outcome :=
+Section Run.
+  Variable v : valn.
+
+  Fixpoint run_code (c : code) (ctx : list nat) (st : mstate) {struct c} : outcome :=
     match c with
     | COp o => run_op o st
     | CBlock l =>
         (fix go (l : list code) (st : mstate) : outcome :=
            match l with
            | [] => ONormal st
-           | c :: r => match run_code c st with
+           | c :: r => match run_code c ctx st with
                        | ONormal st' => go r st'
                        | o => o
                        end
            end) l st
-    | CIf g t e => if evalg v g then run_code t st else run_code e st
+    | CIf g t e => if evalg (v ctx) g then run_code t ctx st else run_code e ctx st
     | CFor n b =>
-        (fix loop (k : nat) (st : mstate) : outcome :=
+        (fix loop (k i : nat) (st : mstate) : outcome :=
            match k with
            | 0 => ONormal st
-           | S k' => match run_code b st with
-                     | ONormal st' => loop k' st'
+           | S k' => match run_code b (i :: ctx) st with
+                     | ONormal st' => loop k' (S i) st'
                      | o => o
                      end
-           end) n st
+           end) n 0 st
     end.
 End Run.
 
@@ -362,10 +389,10 @@ Fixpoint nullify_all (l : list var) (st : mstate) : mstate :=
   end.
 
 (* one phase function: entry, body, "goto 999 / 999 continue", exit deinits *)
-Definition run_func (v : nat -> bool) (f : func) (st : mstate) : outcome :=
+Definition run_func (v : valn) (f : func) (st : mstate) : outcome :=
   let st := nullify_all (f_locals f) st in
   let at_label st := run_ops (map ODeinit (f_exit f)) (ev st [TLabel]) in
-  match run_code v (f_body f) st with
+  match run_code v (f_body f) [] st with
   | ONormal st => at_label (ev st [TGoto])
   | OExit st => at_label st
   | o => o
@@ -378,7 +405,7 @@ Fixpoint find_func (l : list func) (p : nat) : option func :=
   end.
 
 (* subroutine run: dispatch on next_phase; an unknown phase stops *)
-Definition run_step (m : module) (v : nat -> bool) (st : mstate) : outcome :=
+Definition run_step (m : module) (v : valn) (st : mstate) : outcome :=
   match find_func (m_funcs m) (nph st) with
   | None => OStopped st
   | Some f => run_func v f (set_nph st (f_next f))
@@ -414,7 +441,7 @@ Inductive hresult :=
 | HStopped (st : mstate)                     (* the program executed `stop` *)
 | HFault (f : fault) (st : mstate).
 
-Fixpoint run_steps (m : module) (h : list (nat -> bool)) (st : mstate) : outcome :=
+Fixpoint run_steps (m : module) (h : list valn) (st : mstate) : outcome :=
   match h with
   | [] => ONormal st
   | v :: r => match run_step m v st with
@@ -425,7 +452,7 @@ Fixpoint run_steps (m : module) (h : list (nat -> bool)) (st : mstate) : outcome
   end.
 
 (* initialize; one call of run per valuation in h; shutdown *)
-Definition run_mem (m : module) (present : list var) (h : list (nat -> bool)) : hresult :=
+Definition run_mem (m : module) (present : list var) (h : list valn) : hresult :=
   match run_steps m h (init m present) with
   | ONormal st =>
       match shutdown m st with
@@ -525,6 +552,22 @@ Fixpoint trace_eqb (a b : list tev) : bool :=
   end.
 
 Definition valuation (trues : list nat) : nat -> bool := fun a => memv a trues.
+
+(* a valuation given as a finite table of (trip indices, flags that hold there); the harness lists
+   every point of the program at hand (no flag holds at a point that is not listed) *)
+Fixpoint list_eqb (a b : list nat) : bool :=
+  match a, b with
+  | [], [] => true
+  | x :: a', y :: b' => Nat.eqb x y && list_eqb a' b'
+  | _, _ => false
+  end.
+
+Fixpoint cvaluation (tbl : list (list nat * list nat)) : valn :=
+  fun ctx a =>
+    match tbl with
+    | [] => false
+    | (c, trues) :: r => if list_eqb c ctx then memv a trues else cvaluation r ctx a
+    end.
 
 (* what the model predicts for a whole history, in the form the harness observes it:
    status (0 = done, 1 = stopped, 2 = fault), trace in execution order, blocks still live, reports *)
